@@ -262,7 +262,7 @@ func c19M6(r *core.R) {
 				var other *ast.ReturnStmt
 				for b := range reachableFrom([]*cfg.Block{head}, nil) {
 					for _, n := range b.Nodes {
-						if ret, ok := n.(*ast.ReturnStmt); ok && len(ret.Results) > 0 && !info.Types[ret.Results[0]].IsNil() && m.boundOf(ret.Results[0]) != hi {
+						if ret, ok := n.(*ast.ReturnStmt); ok && len(ret.Results) > 0 && !info.Types[ret.Results[0]].IsNil() && !m.returnsBound(fi, ret.Results[0], hi) {
 							if other == nil || ret.Pos() < other.Pos() {
 								other = ret
 							}
